@@ -502,6 +502,7 @@ def check(prop, tier, verif_seed, n=None, workers=None, out=sys.stdout):
         by_sig.setdefault(signature(viol), []).append((i, j, viol, sc, lo))
     exit_code = 0
     n_new = 0
+    unreproducible = []
     for sig in sorted(by_sig):
         hits = by_sig[sig]
         if sig in open_sigs:
@@ -540,6 +541,19 @@ def check(prop, tier, verif_seed, n=None, workers=None, out=sys.stdout):
                 r = {'violations': [], 'history': [], 'err': str(e)}
             if not isinstance(r, dict) or sig not in [
                     signature(x) for x in r.get('violations', [])]:
+                uses_real = sc.get('backend', {}).get('policy') == 'real' \
+                    or any(s_.get('backend', {}).get('policy') == 'real'
+                           for s_ in sc.get('sessions', []))
+                if uses_real:
+                    # an observation on the real back end that does not
+                    # repeat (machine load, safety limit): not a verdict
+                    msg = ('NOTE: %s of seed index %d was observed once on '
+                           'real CBC and did not reproduce (machine '
+                           'dependent); not judged' % (sig, i))
+                    print(msg, file=out)
+                    unreproducible.append(msg)
+                    n_new -= 1
+                    continue
                 print('HARNESS: violation %s of seed index %d did not '
                       'reproduce, neither alone nor after its chunk prefix'
                       % (sig, i), file=out)
@@ -579,7 +593,7 @@ def check(prop, tier, verif_seed, n=None, workers=None, out=sys.stdout):
         print('HARNESS-ERROR seed_index=%d\n%s' % (i, text), file=out)
     if agg.harness:
         exit_code = max(exit_code, 2)
-    notes = []
+    notes = list(unreproducible)
     if agg.evaluations and \
             sum(agg.skipped.values()) > 0.5 * agg.evaluations:
         msg = ('NOTE: %d of %d runs were skipped for this property (%s): '
